@@ -597,6 +597,69 @@ func runHPAI(o *codec.Out, t *testing.T, tcp, sendLocal bool) {
 	o.Rec(r)
 }
 
+// runHPAIRepeated: a UDP gateway that lets `skip` connect requests go unanswered before it accepts, then ends the connection
+// (disconnect request) and again lets `skip` requests of the reconnect go unanswered: EVERY connect request the client
+// transmits - the first, the repetitions, those of the reconnect - is recorded and judged like the first one.
+func runHPAIRepeated(o *codec.Out, t *testing.T, sendLocal bool, skip int) {
+	pc, _ := net.ListenUDP("udp4", &net.UDPAddr{IP: net.IPv4(127, 0, 0, 1)})
+	defer pc.Close()
+	var mu sync.Mutex
+	var recs []sockRec
+	done := make(chan struct{})
+	go func() {
+		defer close(done)
+		buf := make([]byte, 1024)
+		seen, phase := 0, 0
+		for {
+			pc.SetReadDeadline(time.Now().Add(1500 * time.Millisecond))
+			n, from, err := pc.ReadFromUDP(buf)
+			if err != nil {
+				return
+			}
+			var s knxnet.Service
+			if _, e := knxnet.Unpack(buf[:n], &s); e != nil {
+				continue
+			}
+			switch m := s.(type) {
+			case *knxnet.ConnReq:
+				r := blank("hpai", "udp", "")
+				r.SendLocal = codec.B2i(sendLocal)
+				r.Local = addrInts(from)
+				r.Ctl, r.Tun = hostInts(m.Control), hostInts(m.Tunnel)
+				mu.Lock()
+				recs = append(recs, r)
+				mu.Unlock()
+				seen++
+				if seen > skip {
+					seen = 0
+					pc.WriteToUDP(knxnet.AllocAndPack(&knxnet.ConnRes{Channel: uint8(5 + phase), Status: 0, Control: knxnet.HostInfo{Protocol: 1}}), from)
+					if phase == 0 {
+						time.Sleep(20 * time.Millisecond)
+						pc.WriteToUDP(knxnet.AllocAndPack(&knxnet.DiscReq{Channel: 5, Status: 0, Control: knxnet.HostInfo{Protocol: 1}}), from)
+					} else {
+						return
+					}
+					phase++
+				}
+			}
+		}
+	}()
+	tun, err := knx.NewTunnel(pc.LocalAddr().String(), knxnet.TunnelLayerData, knx.TunnelConfig{ResendInterval: 25 * time.Millisecond,
+		ResponseTimeout: time.Second, HeartbeatInterval: time.Hour, SendLocalAddress: sendLocal})
+	select {
+	case <-done:
+	case <-time.After(4 * time.Second):
+	}
+	if err == nil {
+		tun.Close()
+	}
+	mu.Lock()
+	for _, r := range recs {
+		o.Rec(r)
+	}
+	mu.Unlock()
+}
+
 func addrInts(a net.Addr) []int {
 	var ip net.IP
 	var port int
@@ -701,6 +764,10 @@ func TestC16(t *testing.T) {
 		for _, sl := range []bool{false, true} {
 			runHPAI(o, t, tcp, sl)
 		}
+	}
+	// ... and every later one: repetitions towards a gateway that is slow to answer, connect requests of a reconnect
+	for _, sl := range []bool{false, true} {
+		runHPAIRepeated(o, t, sl, 5)
 	}
 }
 
